@@ -75,6 +75,14 @@ def _send(self, request, stream=False, timeout=None, verify=True, cert=None, pro
     if out.get("code"):
         st = HTTP_STATUS[out["code"]]
         payload = json.dumps({"error": {"code": st, "message": "injected by simulator", "status": out["code"]}}).encode()
+        kind = getattr(sim, "http_error_body", None)
+        if kind == "html":
+            # what a proxy / load balancer in front of the API answers: not JSON at all
+            payload = f"<html><head><title>{st}</title></head><body><h1>{st} {out['code']}</h1></body></html>".encode()
+            resp.headers["Content-Type"] = "text/html; charset=UTF-8"
+        elif kind == "empty":
+            payload = b""
+            resp.headers["Content-Type"] = "text/plain"
         resp.status_code = st
         resp.reason = out["code"]
         resp._content = payload
